@@ -416,6 +416,22 @@ int ctx_open(ctx_t *x, const cfg_t *c, const uint64_t *lens, const int *kinds, i
         }
         (void)ok;
     }
+    /* the twin instance encodes the same bytes to the same fragments (what an instance writes does not depend on which
+     * instance of the configuration it is, nor on what was created before it) */
+    if (x->nstr > 0 && x->desc2 > 0 && c->be != EC_BACKEND_NULL) {
+        int si = x->nstr - 1;
+        if (mon_case_all("%s|twin-encode|len=%llu", x->ck, (unsigned long long)x->st[si].len)) {
+            stripe_t t;
+            int rc = stripe_make(&t, x->desc2, c, x->data[si], x->st[si].len);
+            if (rc != 0) mon_viol(LEC_PROP, "twin-encode-failed", "encode through the second instance of the configuration returned %d", rc);
+            else {
+                if (t.flen != x->st[si].flen) mon_viol(LEC_PROP, "twin-encode-differs", "second instance of the configuration produces fragment_len %llu, first %llu", (unsigned long long)t.flen, (unsigned long long)x->st[si].flen);
+                else for (int f = 0; f < t.n; f++) if (memcmp(t.frag[f], x->st[si].frag[f], t.flen)) { mon_viol(LEC_PROP, "twin-encode-differs", "fragment %d encoded through the second instance of the configuration differs from the first instance's", f); break; }
+                stripe_free(&t);
+            }
+            mon_end();
+        }
+    }
     if (x->nstr > 0) noise_publish(x->desc, &x->c, &x->st[x->nstr / 2]);
     return x->nstr > 0 ? 0 : -1;
 }
